@@ -134,9 +134,9 @@ func TestCheck(t *testing.T) {
 
 	// rule-set shapes
 	rs := rep.Add(&report.Section{Name: "rule-set-shapes", Engine: "enum", Exhaustive: true, Extra: map[string]int64{},
-		Rule: "every rule set of 0-2 rules, each with 0-2 actions from {get, put} and 0-2 patterns from {a*, *b, a/b}, × action {get, put, info} × names: Rules.Allow vs the reference; empty set allows nothing; monotone under adding a rule; no panic; non-trivial = evaluations the reference allows"})
+		Rule: "every rule set of 0-2 rules, each with 0-2 actions from {get, put} and 0-2 patterns from {a*, *b, a/b, a, b, a<newline>b}, × action {get, put, info} × names, evaluated in one process in forward and then in reverse order: Rules.Allow vs the reference; empty set allows nothing; monotone under adding a rule; no panic; non-trivial = evaluations the reference allows"})
 	acts := []acl.Action{acl.ActionGet, acl.ActionPut}
-	pats := []acl.Secret{"a*", "*b", "a/b"}
+	pats := []acl.Secret{"a*", "*b", "a/b", "a", "b", "a\nb"}
 	var actSets [][]acl.Action
 	actSets = append(actSets, nil)
 	for i, a := range acts {
@@ -192,7 +192,17 @@ func TestCheck(t *testing.T) {
 		}()
 		return rr.Allow(a, n), nil
 	}
-	for si, set := range sets {
+	// two passes, the second in reverse order: an evaluation must not depend on which rule sets
+	// were evaluated before it in the same process
+	order := make([]int, 0, 2*len(sets))
+	for i := range sets {
+		order = append(order, i)
+	}
+	for i := len(sets) - 1; i >= 0; i-- {
+		order = append(order, i)
+	}
+	for _, si := range order {
+		set := sets[si]
 		ref := toRef(set)
 		for _, a := range queries {
 			for _, nm := range names {
